@@ -193,6 +193,8 @@ def gen_cases(thorough):
             yield (fname, nname, idx), stmts, fi, ci
     for case in gen_unterminated():
         yield case
+    for case in gen_constrained():
+        yield case
 
 
 # A string literal that never closes swallows the rest of the file, so the statements after it must not hold a quote
@@ -209,6 +211,28 @@ def gen_unterminated():
             base = [BASE[QUOTE_FREE[k % len(QUOTE_FREE)]].format(i=k, j=k) for k in range(3)]
             stmts = list(PRELUDE) + base[:idx] + [faulty] + base[idx:]
             yield (fname, nname, idx), stmts, len(PRELUDE) + idx, None
+
+
+# A value that does not fit its constraint, where the constraint is a name defined in an earlier statement (a constraint
+# statement or a let-bound exemplar): the fault is the binding, not the definition of the constraint.
+CONSTRAINT_PRELUDE = ["constraint cc = 0;", "let ex = 0;", "constraint alt = 0 | 1;"]
+CONSTRAINED = [
+    ("constraint-violated:named-constraint:let", "let q :: cc =\n    \"s\";"),
+    ("constraint-violated:let-bound-exemplar:let", "let q :: ex =\n    \"s\";"),
+    ("constraint-violated:named-alternation:let", "let q :: alt =\n    \"s\";"),
+    ("constraint-violated:inline:let", "let q :: 0 =\n    \"s\";"),
+    ("constraint-violated:named-constraint:let-of-a-name", "let q :: cc =\n    sv;"),
+    ("constraint-violated:named-constraint:tuple-field", "let q = {\n    k :: cc = \"s\",\n    z = 2,\n};"),
+    ("constraint-violated:let-bound-exemplar:tuple-field", "let q = {\n    k :: ex = \"s\",\n    z = 2,\n};"),
+]
+
+
+def gen_constrained():
+    for fname, faulty in CONSTRAINED:
+        for idx in range(0, 4):
+            base = [BASE[k % len(BASE)].format(i=k, j=k) for k in range(3)]
+            stmts = list(PRELUDE) + CONSTRAINT_PRELUDE + base[:idx] + [faulty] + base[idx:]
+            yield (fname, "statement", idx), stmts, len(PRELUDE) + len(CONSTRAINT_PRELUDE) + idx, None
 
 
 def variants(stmts, fi, ci):
@@ -247,6 +271,8 @@ def work(chunk):
         routes = ("eval", "build")
         if desc[2] == 1 and desc[1] in CLI_NESTS:
             routes = ("eval", "build", "cli")       # what the real `ucg build` prints, for a sample of the nesting positions
+        if ":tuple-field" in desc[0]:
+            routes = tuple(r for r in routes if r != "eval")     # only the static checker vets a tuple field's constraint
         for route in routes:
             base_pos = None
             for vname, vst, vfi, vci, shift in variants(stmts, fi, ci):
